@@ -57,7 +57,7 @@ class Flavour:
             return f"Option ({inner})" if " " in inner else f"Option {inner}"
         return {"real": self.real, "bool": "Prop" if self.R else "Bool", "vec": f"List {self.real}",
                 "int": "ℕ" if self.R else "Nat", "zint": "ℤ" if self.R else "Int",
-                "fn": f"{self.real} → {self.real}", "fnb": f"{self.real} → " + ("Prop" if self.R else "Bool")}[k]
+                "fn": f"{self.real} → {self.real}", "fn2": f"{self.real} → {self.real} → {self.real}", "fnb": f"{self.real} → " + ("Prop" if self.R else "Bool")}[k]
 
     def lit(self, v):
         if isinstance(v, bool):
@@ -165,6 +165,10 @@ class FnTx:
             if n.id not in self.env:
                 self.err(n, f"unknown name {n.id}")
             return lname(n.id), self.env[n.id]
+        if isinstance(n, ast.Attribute) and isinstance(n.value, ast.Name) and n.value.id == "math" and n.attr in ("tau", "pi"):
+            if fl.R:
+                return ("(2 * Real.pi)" if n.attr == "tau" else "Real.pi"), "real"
+            return ("(6.283185307179586 : Float)" if n.attr == "tau" else "(3.141592653589793 : Float)"), "real"
         if isinstance(n, ast.Tuple):
             parts = [self.tx(e) for e in n.elts]
             return "(" + ", ".join(p[0] for p in parts) + ")", ("tuple", [p[1] for p in parts])
@@ -291,6 +295,21 @@ class FnTx:
         elif isinstance(f, ast.Attribute) and isinstance(f.value, ast.Name) and f.value.id in ("torch", "math"):
             fname = f.attr
         if fname is not None:
+            if fname in self.env and self.env[fname] == "fn2":
+                (a, ka), (b, kb) = self.tx(n.args[0]), self.tx(n.args[1])
+                if ka != "real" or kb != "real":
+                    self.err(n, "binary function parameter applied to non-scalars")
+                return f"({lname(fname)} {a} {b})", "real"
+            if fname == "xlogy" and len(n.args) == 2:      # torch.special.xlogy: 0 where x == 0, else x * log(y)
+                (a, ka), (b, kb) = self.tx(n.args[0]), self.tx(n.args[1])
+                if ka != "real" or kb != "real":
+                    self.err(n, "xlogy of non-scalars")
+                return fl.ite(fl.cmp("Eq", a, fl.lit(0)), fl.lit(0), f"({a} * {fl.log(b)})"), "real"
+            if fname == "floor" and isinstance(f, ast.Attribute) and f.value.id == "torch" and len(n.args) == 1:
+                a, ka = self.tx(n.args[0])             # torch.floor keeps the dtype: a real-valued floor
+                if ka != "real":
+                    self.err(n, "torch.floor of non-scalar")
+                return (f"((⌊{a}⌋ : ℤ) : ℝ)" if fl.R else f"(Float.floor {a})"), "real"
             if fname in self.env and self.env[fname] in ("fn", "fnb"):
                 a, ka = self.tx(n.args[0])
                 if ka != "real":
@@ -418,6 +437,9 @@ class FnTx:
         args = []
         for name in order:
             if name not in bound:
+                if kinds[name] in ("fn", "fn2", "fnb") and self.env.get(name) == kinds[name]:
+                    args.append(lname(name))          # opaque primitive (erf, lgamma, …) threaded through to the callee
+                    continue
                 if is_opt(kinds[name]):
                     args.append("none")
                     continue
@@ -650,6 +672,8 @@ def translate_module(mod: str, item: dict) -> dict:
         text += f"\nend InfernoVerif.Gen.{mod}{flv}\n"
         if flv == "R" and ("⌈" in text or "⌊" in text):
             text = "import Mathlib.Algebra.Order.Floor.Ring\n" + text
+        if flv == "R" and "Real.pi" in text:
+            text = "import Mathlib.Analysis.SpecialFunctions.Trigonometric.Basic\n" + text
         outs[flv] = text
     changed = False
     GEN.mkdir(parents=True, exist_ok=True)
@@ -661,7 +685,7 @@ def translate_module(mod: str, item: dict) -> dict:
     return {"functions": info, "rewritten": changed}
 
 
-PARSE = {"zint": "pInt", "real": "pReal", "bool": "pBool", "vec": "pVec", "fn": "pFn", "fnb": "pFnb",
+PARSE = {"fn2": "pFn2", "zint": "pInt", "real": "pReal", "bool": "pBool", "vec": "pVec", "fn": "pFn", "fnb": "pFnb",
          "opt real": "pOptReal", "opt bool": "pOptBool", "opt vec": "pOptVec", "opt fn": "pOptFn"}
 SHOW = {"zint": "sInt", "real": "sReal", "bool": "sBool", "vec": "sVec"}
 
